@@ -31,14 +31,21 @@
 (*                 mbu: already handed to the link in its current life),     *)
 (*            cq   circuit queued for deletion by the incoming link,         *)
 (*            got  the outgoing link has received the peer's settle/fail,    *)
-(*            rp / rr  re-processing of the packages after a restart due     *)
+(*            ps   a received settle is being pipelined to the switch,       *)
+(*            rp / rr  (re-)processing of the packages' adds / responses due *)
+(* A link that stops loses what it was handing to the switch (ps, rr: the    *)
+(* hand-over runs in a goroutine that gives up with ErrLinkShuttingDown);    *)
+(* what is in a forwarding package is replayed when the link starts again.   *)
 EXTENDS ForwardingRules, TLC
 
 CONSTANTS NP,        \* number of payments
           Kinds,     \* subset of {"ok", "reject", "hold", "underpaid"}
           Dirs,      \* subset of {"fwd", "rev"}
           MaxNet,    \* bound on restarts of the whole network
-          MaxLink    \* bound on link restarts (reconnects)
+          MaxLink,   \* bound on link restarts (reconnects)
+          ReplayOnLinkStart  \* TRUE = the code: a starting link replays the unacked settles/fails of its packages
+                             \* (resolveFwdPkg -> processRemoteSettleFails); FALSE only in the witness run that shows
+                             \* the quiescence rules need it
 
 VARIABLES b,         \* Bob's mechanism state
           env,       \* senders and receivers: [dec, started, umb, orph]
@@ -50,7 +57,7 @@ vars == <<pl, st, hs, b, env, stall, nNet, nLink>>
 NoBob == [fp |-> "none", fwd |-> FALSE, ack |-> FALSE, circ |-> "none", fpo |-> "none", pre |-> FALSE,
           disk |-> FALSE, clos |-> FALSE, sw |-> FALSE, mbo |-> FALSE, ks |-> FALSE,
           rt |-> FALSE, mbi |-> "none", mbu |-> FALSE, src |-> "-", dref |-> FALSE, cq |-> FALSE, got |-> FALSE,
-          rp |-> FALSE, rr |-> FALSE, pa |-> FALSE]
+          rp |-> FALSE, rr |-> FALSE, pa |-> FALSE, ps |-> FALSE]
 NoEnv == [dec |-> "-", started |-> FALSE, umb |-> FALSE, orph |-> FALSE]
 
 \* amounts: Bob's fee is 1, an under-paid add offers one unit less
@@ -191,10 +198,15 @@ Close(r, kind, withRef) ==
 B_RecvAnswer(p) == /\ st[p].or \in {"offered", "signed"} /\ ~b[p].got
                    /\ IF st[p].ork = "settle"
                       THEN /\ hs' = [hs EXCEPT ![p].dnSettle = TRUE, ![p].dnPre = "P"]
-                           /\ b' = [b EXCEPT ![p] = Close([@ EXCEPT !.got = TRUE, !.pre = TRUE], "settle", FALSE)]
+                           /\ b' = [b EXCEPT ![p].got = TRUE, ![p].pre = TRUE, ![p].ps = TRUE]
                       ELSE /\ hs' = Set(hs, p, "dnFail", TRUE)
                            /\ b' = Set(b, p, "got", TRUE)
                    /\ UNCHANGED <<pl, st, env, stall, nNet, nLink>>
+
+\* the pipelined settle reaches the switch (go forwardBatch)
+B_Pipeline(p) == /\ b[p].ps
+                 /\ b' = [b EXCEPT ![p] = Close([@ EXCEPT !.ps = FALSE], "settle", FALSE)]
+                 /\ UNCHANGED <<pl, st, hs, env, stall, nNet, nLink>>
 
 \* the removal is irrevocable: package written with the revocation, processRemoteSettleFails due
 Out_RmLock(p) == /\ st[p].or = "signed" /\ b[p].got /\ ~stall[p].o
@@ -288,7 +300,8 @@ AfterRestart(C, net) ==
                     !.cq   = IF i THEN (@ /\ st[p].ir = "signed") ELSE @,
                     !.got  = IF o THEN (@ /\ st[p].or \in {"signed", "removed"}) ELSE @,
                     !.rp   = IF i THEN TRUE ELSE @,
-                    !.rr   = IF o \/ net THEN TRUE ELSE @]]
+                    !.ps   = IF o \/ net THEN FALSE ELSE @,
+                    !.rr   = IF net THEN TRUE ELSE IF o THEN ReplayOnLinkStart ELSE @]]
   \* O3: a restart may fall between a revocation and the signature its sender owes
   /\ IF OwedSigQuirk
      THEN \E S \in SUBSET {<<p, w>> \in P \X {"i", "o"} :
@@ -321,6 +334,7 @@ Progress(p) == \/ U_Offer(p)
                \/ D_Answer(p)
                \/ D_Sign(p)
                \/ B_RecvAnswer(p)
+               \/ B_Pipeline(p)
                \/ Out_RmLock(p)
                \/ B_ForwardAnswer(p)
                \/ B_AckTick(p)
@@ -346,6 +360,7 @@ aD_Decide == \E p \in P : D_Decide(p)
 aD_Answer == \E p \in P : D_Answer(p)
 aD_Sign == \E p \in P : D_Sign(p)
 aB_RecvAnswer == \E p \in P : B_RecvAnswer(p)
+aB_Pipeline == \E p \in P : B_Pipeline(p)
 aOut_RmLock == \E p \in P : Out_RmLock(p)
 aB_ForwardAnswer == \E p \in P : B_ForwardAnswer(p)
 aB_AckTick == \E p \in P : B_AckTick(p)
@@ -372,6 +387,7 @@ Next == \/ aU_Offer
         \/ aD_Answer
         \/ aD_Sign
         \/ aB_RecvAnswer
+        \/ aB_Pipeline
         \/ aOut_RmLock
         \/ aB_ForwardAnswer
         \/ aB_AckTick
